@@ -8,39 +8,39 @@
 (***************************************************************************)
 EXTENDS Naturals
 
-F(n) == (n - 1) \div 5      \* tolerated faulty weight
-Q(n) == n - F(n)            \* commit / timeout quorum
-S(n) == n - 3 * F(n)        \* re-proposal sub-quorum
+FaultyOf(n) == (n - 1) \div 5      \* tolerated faulty weight
+QuorumOf(n) == n - FaultyOf(n)            \* commit / timeout quorum
+SubQuorumOf(n) == n - 3 * FaultyOf(n)        \* re-proposal sub-quorum
 
 (* The statement of C07, one conjunct per clause of the property:           *)
 Good(n) ==
-    /\ F(n) \in Nat
-    /\ 5 * F(n) + 1 <= n             \* n >= 5f+1
-    /\ n < 5 * F(n) + 6              \* f is the largest such value (characterises f)
-    /\ 3 * F(n) <= n                 \* n-3f does not underflow
-    /\ F(n) <= n                     \* n-f does not underflow
-    /\ 2 * Q(n) - n > F(n)           \* two quorums share more than f weight
-    /\ 2 * Q(n) >= n                 \* (the subtraction above is in Nat)
-    /\ 2 * Q(n) - n - F(n) >= S(n)   \* commit ∩ timeout quorum has >= subquorum correct weight
-    /\ 2 * F(n) < S(n)               \* conflicting reporters (<= 2f) stay below the sub-quorum
-    /\ Q(n) >= 1 /\ Q(n) <= n
-    /\ S(n) >= 1 /\ S(n) <= n
+    /\ FaultyOf(n) \in Nat
+    /\ 5 * FaultyOf(n) + 1 <= n             \* n >= 5f+1
+    /\ n < 5 * FaultyOf(n) + 6              \* f is the largest such value (characterises f)
+    /\ 3 * FaultyOf(n) <= n                 \* n-3f does not underflow
+    /\ FaultyOf(n) <= n                     \* n-f does not underflow
+    /\ 2 * QuorumOf(n) - n > FaultyOf(n)           \* two quorums share more than f weight
+    /\ 2 * QuorumOf(n) >= n                 \* (the subtraction above is in Nat)
+    /\ 2 * QuorumOf(n) - n - FaultyOf(n) >= SubQuorumOf(n)   \* commit ∩ timeout quorum has >= subquorum correct weight
+    /\ 2 * FaultyOf(n) < SubQuorumOf(n)               \* conflicting reporters (<= 2f) stay below the sub-quorum
+    /\ QuorumOf(n) >= 1 /\ QuorumOf(n) <= n
+    /\ SubQuorumOf(n) >= 1 /\ SubQuorumOf(n) <= n
 
 (* Every intermediate value of the three computations lies in 0..n, so none *)
 (* overflows a 64-bit word when n fits in one: n-1, (n-1) div 5, 3*f, n-f,  *)
 (* n-3f.                                                                   *)
 Bounded(n) ==
     /\ n - 1 \in 0..n
-    /\ F(n) \in 0..n
-    /\ 3 * F(n) \in 0..n
-    /\ Q(n) \in 0..n
-    /\ S(n) \in 0..n
+    /\ FaultyOf(n) \in 0..n
+    /\ 3 * FaultyOf(n) \in 0..n
+    /\ QuorumOf(n) \in 0..n
+    /\ SubQuorumOf(n) \in 0..n
 
 THEOREM Thresholds == \A n \in Nat : n >= 1 => Good(n) /\ Bounded(n)
-  BY DEF Good, Bounded, F, Q, S
+  BY DEF Good, Bounded, FaultyOf, QuorumOf, SubQuorumOf
 
 (* Uniqueness: 5f+1 <= n < 5f+6 pins f, so any function satisfying Good is F *)
 THEOREM Characterisation ==
-    \A n \in Nat : \A f \in Nat : (n >= 1 /\ 5 * f + 1 <= n /\ n < 5 * f + 6) => f = F(n)
-  BY DEF F
+    \A n \in Nat : \A f \in Nat : (n >= 1 /\ 5 * f + 1 <= n /\ n < 5 * f + 6) => f = FaultyOf(n)
+  BY DEF FaultyOf
 =============================================================================
